@@ -43,6 +43,7 @@ type c03Case struct {
 	Ring       bool       `json:"ring,omitempty"` // the producers are real AbacoRings over real shared-memory ring buffers the harness writes into
 	Slot       int        `json:"slot,omitempty"`       // ring mode: packet (slot) size announced in the ring description (0: 8192)
 	StartMid   int        `json:"start_mid_packet,omitempty"` // ring mode: the source is started while the data producer is this many bytes into a packet
+	RingTight  int        `json:"ring_tight,omitempty"` // ring mode: 0 a ring of 256 slots; 1 a ring only a few slots larger than the largest batch (reads wrap around its end); 2 the same plus half a slot (the ring is no whole number of slots)
 	PriorSlot  int        `json:"prior_slot,omitempty"` // ring mode: the same AbacoRing objects were started and stopped before, on rings with this slot size
 	Seed       int        `json:"seed"`
 }
@@ -399,10 +400,23 @@ func c03Run(c c03Case) (v vVerdict) {
 	if ringMode {
 		for i, pr := range prods {
 			name := fmt.Sprintf("verif_c03_%d_%s_%d", os.Getpid(), os.Getenv("VERIF_SHARD"), i)
+			maxBatch := len(pr.sample)
+			for _, tk := range pr.ticks {
+				if len(tk) > maxBatch {
+					maxBatch = len(tk)
+				}
+			}
 			mk := func(sz int) (*ringbuffer.RingBuffer, error) {
 				w, _ := ringbuffer.NewRingBuffer(name+"_buffer", name+"_description")
 				w.Unlink()
-				if err := w.Create(256 * sz); err != nil {
+				ringBytes := 256 * sz
+				switch c.RingTight {
+				case 1:
+					ringBytes = (maxBatch + 4) * sz
+				case 2:
+					ringBytes = (maxBatch+4)*sz + sz/2
+				}
+				if err := w.Create(ringBytes); err != nil {
 					return nil, err
 				}
 				// the packet size is a field of the ring description that the data producer fills in (Create, "for testing only",
@@ -616,6 +630,9 @@ func c03Run(c c03Case) (v vVerdict) {
 	}
 	if ringMode {
 		v.Classes = append(v.Classes, "real-ring-buffers")
+		if c.RingTight > 0 {
+			v.Classes = append(v.Classes, fmt.Sprintf("small-ring-%d", c.RingTight))
+		}
 		if c.PriorSlot != 0 && c.PriorSlot != slotSize {
 			v.Classes = append(v.Classes, "ring-restarted-with-other-packet-size")
 		}
@@ -652,6 +669,7 @@ func c03Gen(t *rapid.T) c03Case {
 		c.Slot = rapid.SampledFrom([]int{0, 0, 4096, 16384}).Draw(t, "slot")
 		c.PriorSlot = rapid.SampledFrom([]int{0, 0, 8192, 4096, 16384}).Draw(t, "priorslot")
 		c.StartMid = rapid.SampledFrom([]int{0, 0, 8, 100, 3000, 4088}).Draw(t, "startmid")
+		c.RingTight = rapid.SampledFrom([]int{0, 1, 2, 2}).Draw(t, "ringtight")
 	}
 	first := rapid.SampledFrom([]int{0, 1, 100}).Draw(t, "firstchan")
 	var groups []c03Group
